@@ -140,10 +140,10 @@ static std::vector<long long> gen_offsets(const std::string &kind, size_t n, siz
         cur += (long long) (3 * len * len / g) + (long long) rng.below(20);
         if (v.size() < n) { v.push_back(cur); cur += 1; }
         while (v.size() < n) { v.push_back(cur); cur += (long long) rng.below(2); }
-    } else if (kind == "clusters_irregular") {
+    } else if (kind == "clusters_irregular" || kind == "clusters_big") {
         // a few dense but irregular clusters (gaps 0..3, short runs: a segment every few keys when epsilon is small) separated by
         // huge gaps: many segment keys that differ only in their low bits (one bucket of a succinct / table top level holds them all)
-        size_t clusters = 4 + rng.below(12), per = std::max<size_t>(1, n / clusters);
+        size_t clusters = kind == "clusters_big" ? 3 + rng.below(3) : 4 + rng.below(12), per = std::max<size_t>(1, n / clusters);
         while (v.size() < n) {
             for (size_t i = 0; i < per && v.size() < n; ++i) { v.push_back(cur); cur += rng.chance(1, 5) ? 0 : (long long) rng.below(4) + (rng.chance(1, 6) ? 5 : 0); }
             cur += (1LL << rng.range(18, 26)) + (long long) rng.below(1000);
